@@ -58,6 +58,16 @@ type funcSpec struct {
 	tape bool
 	// threaded: abstract callees that take and hand back state: "pkg.Name" -> the Go variables (arguments of the call) or "tape"
 	threaded map[string][]string
+	// wrapTransparent: fmt.Errorf("… %w …", …, err) IS err (what errors.Is / errors.As see; the added text carries no meaning here)
+	wrapTransparent bool
+	// nilable: slice variables (named results included) whose being nil is tested and differs from being empty: translated as
+	// Option; a value assigned to one is wrapped in `some` — i.e. ASSUMED not to be nil (say why in the directive's comment)
+	nilable []string
+	// expose: local variables holding abstract state (a connection) whose final value is handed back after the results,
+	// as an Option (none: the return happens before the variable exists), so that a theorem can speak about what was done to it
+	expose []string
+	// params: further leading parameters of the translated definition, as Lean binder text (for fuel expressions over abstract state)
+	params []string
 }
 
 // The functions translated. Order matters only for readability: dependencies are emitted first automatically.
@@ -133,6 +143,12 @@ var funcSpecs = []funcSpec{
 	{rel: "", name: "(*ScryptRecipient).SetWorkFactor"},
 	{rel: "", name: "NewScryptIdentity"},
 	{rel: "", name: "(*ScryptIdentity).SetMaxWorkFactor"},
+	{rel: "plugin", name: "(*Recipient).WrapWithLabels", abstract: pluginAbstract, opaque: pluginOpaque, wrapTransparent: true, threaded: pluginThreaded,
+		nilable: []string{"labels"}, // format.ReadStanza builds Args by slicing a non-empty slice: it is never nil
+		expose: []string{"conn"},
+		params: []string{"(reader_remaining : σ → Nat)"}, fuel: map[int]string{1: "reader_remaining sr + 1"}},
+	{rel: "plugin", name: "(*Identity).Unwrap", abstract: pluginAbstract, opaque: pluginOpaque, wrapTransparent: true, threaded: pluginThreaded, expose: []string{"conn"},
+		params: []string{"(reader_remaining : σ → Nat)"}, fuel: map[int]string{2: "reader_remaining sr + 1"}},
 	{rel: "", name: "ParseRecipients", abstract: []string{"age.ParseX25519Recipient"}, opaque: map[string]string{"Recipient": "κ", "X25519Recipient": "κ"}, errInts: true},
 }
 
@@ -142,6 +158,12 @@ var nativeOpaque = map[string]string{"io.Reader": "κ", "tapeτ": "τ"}
 
 // Marshal: the destination is abstract state, the wrapped base64 encoder on top of it too
 var marshalOpaque = map[string]string{"io.Writer": "δ", "format.WrappedBase64Encoder": "ω", "base64.Encoding": "ε"}
+
+// the plugin client: the connection (what was written to the plugin), the stanza reader on it (what the plugin will
+// still say) and the UI are abstract state
+var pluginAbstract = []string{"plugin.openClientConnection", "plugin.writeStanza", "plugin.writeStanzaWithBody", "format.NewStanzaReader", "plugin.readStanza", "plugin.handle", "format.Marshal"}
+var pluginOpaque = map[string]string{"plugin.clientConnection": "χ", "plugin.ClientUI": "υ", "format.StanzaReader": "σ", "bufio.Reader": "χ", "io.Writer": "χ"}
+var pluginThreaded = map[string][]string{"plugin.writeStanza": {"conn"}, "plugin.writeStanzaWithBody": {"conn"}, "plugin.readStanza": {"sr"}, "plugin.handle": {"conn"}, "format.Marshal": {"conn"}}
 
 // agessh: the primitives, the key's wire form and its fingerprint are abstract
 var sshAbstract = []string{"curve25519.X25519", "format.EncodeToString", "format.DecodeString", "agessh.aeadEncrypt", "agessh.aeadDecrypt", "agessh.sshFingerprint"}
@@ -216,9 +238,11 @@ type fctx struct {
 	stopped      bool       // funcSpec.stopAt was reached: the remaining statements are not translated
 	// closures: `x := func(…) … { … }` at function level whose only captured variable is the receiver: translated as
 	// one more method of the receiver's type (the receiver handed back), `x(…)` as a call of that method
-	closures  map[*types.Var]*FuncInfo
-	recvIdent *ast.Ident // an identifier that denotes the receiver (for the calls of closures)
-	noHoist   bool       // the statement being translated deals with the handed-back receiver itself
+	closures     map[*types.Var]*FuncInfo
+	recvIdent    *ast.Ident // an identifier that denotes the receiver (for the calls of closures)
+	noHoist      bool       // the statement being translated deals with the handed-back receiver itself
+	pendingLabel string     // label of the loop statement about to be translated
+	sprintfN     int        // opaque Sprintf texts so far
 }
 
 // absParam: a callee that stays abstract = a leading parameter of the translated definition
@@ -227,6 +251,7 @@ type absParam struct{ name, sig string }
 const absSigMark, absArgMark = "⟦ABSSIG:", "⟦ABSARGS:"
 
 type loopCtx struct {
+	label    string     // the label of the loop statement, if it has one
 	scanVar  *types.Var // `for scanner.Scan()`: the scanner whose current token is tok__
 	muts     []*types.Var
 	contCall string   // the recursive call expression (continue)
@@ -679,6 +704,9 @@ func (c *fctx) expr(e ast.Expr) string {
 			if o.Parent() == c.fi.Pkg.Types.Scope() {
 				return c.t.global(c, x, o)
 			}
+			if c.isNilable(o) {
+				return "(" + c.nameOf(o) + ".getD [])" // read as a value, a nil slice is the empty one
+			}
 			return c.nameOf(o)
 		}
 		c.fail(e, "identifier %s has no translation", x.Name)
@@ -886,6 +914,15 @@ func (c *fctx) binary(at ast.Node, X ast.Expr, op token.Token, Y ast.Expr, opT t
 				}
 			}
 		}
+		// a nilable slice variable compared with nil
+		if c.isNil(Y) {
+			if v := c.nilableIdent(X); v != nil {
+				if op == token.EQL {
+					return "(" + c.nameOf(v) + ".isNone)"
+				}
+				return "(" + c.nameOf(v) + ".isSome)"
+			}
+		}
 		// comparison of a value of an opaque type with nil: an abstract predicate
 		if c.isNil(Y) {
 			if lt, ok := leanTypeOf(c.typeOf(X)); ok && len([]rune(lt)) == 1 {
@@ -1047,6 +1084,26 @@ func (c *fctx) call(x *ast.CallExpr) string {
 						c.curE.add(c.curInd, "let _ := "+c.expr(a))
 					}
 				}
+				if m0, _ := c.fi.Pkg.constString(x.Args[0]); strings.Contains(m0, "%w") && c.spec != nil && c.spec.wrapTransparent {
+					// which argument the %w takes: one argument per verb before it
+					verbs := 0
+					for i := 0; i+1 < len(m0); i++ {
+						if m0[i] == '%' {
+							if m0[i+1] == '%' {
+								i++
+								continue
+							}
+							if m0[i+1] == 'w' {
+								break
+							}
+							verbs++
+						}
+					}
+					if 1+verbs >= len(x.Args) || !isErrorType(c.typeOf(x.Args[1+verbs])) {
+						c.fail(x, "cannot tell which argument %%w wraps")
+					}
+					return c.expr(x.Args[1+verbs])
+				}
 				k := c.errN
 				c.errN++
 				msg, _ := c.fi.Pkg.constString(x.Args[0])
@@ -1133,6 +1190,26 @@ func (c *fctx) call(x *ast.CallExpr) string {
 				}
 				c.useAbstractName("hkdf_New_sha256", "(hkdf_New_sha256 : (List UInt8) → (List UInt8) → (List UInt8) → Go.M κ)")
 				return "(← hkdf_New_sha256 " + c.sliceOrNil(x.Args[1]) + " " + c.sliceOrNil(x.Args[2]) + " " + c.expr(x.Args[3]) + ")"
+			}
+			if o.Pkg().Path() == "fmt" && o.Name() == "Sprintf" {
+				// a text the translation does not look into (verbs other than %s, values of math/rand): an abstract constant
+				// per site; arguments other than math/rand calls are still evaluated, for their faults
+				for _, a := range x.Args[1:] {
+					if ac, ok := ast.Unparen(a).(*ast.CallExpr); ok {
+						if f, ok := c.fi.Pkg.callee(ac).(*types.Func); ok && f.Pkg() != nil && f.Pkg().Path() == "math/rand" {
+							continue
+						}
+					}
+					if c.partial(a) {
+						c.curE.add(c.curInd, "let _ := "+c.expr(a))
+					}
+				}
+				c.sprintfN++
+				an := fmt.Sprintf("sprintf_%d", c.sprintfN)
+				msg, _ := c.fi.Pkg.constString(x.Args[0])
+				c.sites = append(c.sites, fmt.Sprintf("text %s (line %d): Sprintf(%q, …), opaque", an, c.t.pr.line(x.Pos()), msg))
+				c.useAbstractName(an, "("+an+" : (List UInt8))")
+				return an
 			}
 			if o.Pkg().Path() == "crypto/hmac" && o.Name() == "New" {
 				if c.t.pr.text(c.fi.Pkg, x.Args[0]) != "sha256.New" {
@@ -1432,6 +1509,50 @@ func (c *fctx) refuseAliasingAppend(x *ast.CallExpr) {
 		}
 		return true
 	})
+}
+
+func (c *fctx) isNilable(v *types.Var) bool {
+	if c.spec == nil || v == nil {
+		return false
+	}
+	for _, n := range c.spec.nilable {
+		if n == v.Name() {
+			if _, isSlice := v.Type().Underlying().(*types.Slice); isSlice && !v.IsField() {
+				return true
+			}
+		}
+	}
+	return false
+}
+
+// varLeanType: the Lean type of a variable (Option-wrapped when it is declared nilable)
+func (c *fctx) varLeanType(n ast.Node, v *types.Var) string {
+	t := c.leanType(n, v.Type())
+	if c.isNilable(v) {
+		return "(Option " + t + ")"
+	}
+	return t
+}
+
+// nilableIdent: e is a plain use of a nilable variable
+func (c *fctx) nilableIdent(e ast.Expr) *types.Var {
+	if id, ok := ast.Unparen(e).(*ast.Ident); ok {
+		if v, ok := c.info().Uses[id].(*types.Var); ok && c.isNilable(v) {
+			return v
+		}
+	}
+	return nil
+}
+
+// toNilable: the value of expression e for a nilable destination
+func (c *fctx) toNilable(e ast.Expr) string {
+	if c.isNil(e) {
+		return "none"
+	}
+	if v := c.nilableIdent(e); v != nil {
+		return c.nameOf(v)
+	}
+	return "(some " + c.expr(e) + ")"
 }
 
 func isScanner(t types.Type) bool {
@@ -1957,6 +2078,17 @@ func (c *fctx) retExpr(vals []string) string {
 	for _, io := range c.inouts {
 		all = append(all, c.nameOf(io))
 	}
+	if c.spec != nil {
+		for _, x := range c.spec.expose {
+			val := "none"
+			for o, n := range c.names {
+				if v, ok := o.(*types.Var); ok && v.Name() == x && !v.IsField() {
+					val = "(some " + n + ")"
+				}
+			}
+			all = append(all, val)
+		}
+	}
 	switch len(all) {
 	case 0:
 		return "()"
@@ -2026,7 +2158,7 @@ func (c *fctx) assignTo(e *emitter, ind int, lhs ast.Expr, val string, define bo
 		}
 		if define {
 			if v, ok := c.info().Defs[l].(*types.Var); ok && v != nil {
-				e.add(ind, fmt.Sprintf("let mut %s : %s := %s", c.nameOf(v), c.leanType(l, v.Type()), val))
+				e.add(ind, fmt.Sprintf("let mut %s : %s := %s", c.nameOf(v), c.varLeanType(l, v), val))
 				return
 			}
 		}
@@ -2193,7 +2325,10 @@ func (c *fctx) stmt(e *emitter, ind int, s ast.Stmt) {
 				if i < len(vs.Values) {
 					val = c.expr(vs.Values[i])
 				}
-				e.add(ind, fmt.Sprintf("let mut %s : %s := %s", c.nameOf(v), c.leanType(n, v.Type()), val))
+				if c.isNilable(v) && i >= len(vs.Values) {
+					val = "none"
+				}
+				e.add(ind, fmt.Sprintf("let mut %s : %s := %s", c.nameOf(v), c.varLeanType(n, v), val))
 			}
 		}
 	case *ast.AssignStmt:
@@ -2262,6 +2397,18 @@ func (c *fctx) stmt(e *emitter, ind int, s ast.Stmt) {
 		}
 		e.add(ind, "let _ := "+c.expr(call))
 	case *ast.DeferStmt:
+		// defer x.m(…) with x of an opaque type: the (abstract) call runs at every return, like a deferred closure
+		if sel, isSel := ast.Unparen(st.Call.Fun).(*ast.SelectorExpr); isSel && c.lc == nil {
+			if lt, ok := leanTypeOf(c.typeOf(sel.X)); ok && len([]rune(lt)) == 1 {
+				for _, r := range c.results {
+					if r.Name() == "" || r.Name() == "_" {
+						c.fail(s, "defer in a function without named results")
+					}
+				}
+				c.deferred = append(c.deferred, &ast.ExprStmt{X: st.Call})
+				return
+			}
+		}
 		lit, ok := st.Call.Fun.(*ast.FuncLit)
 		if !ok || len(st.Call.Args) != 0 || c.lc != nil || lit.Type.Params.NumFields() != 0 {
 			c.fail(s, "defer of something other than a parameterless closure at function level")
@@ -2279,7 +2426,11 @@ func (c *fctx) stmt(e *emitter, ind int, s ast.Stmt) {
 				var tmps []string
 				for i, r := range st.Results {
 					t := c.tmp()
-					e.add(ind, "let "+t+" := "+c.exprAs(r, c.results[i].Type()))
+					if c.isNilable(c.results[i]) {
+						e.add(ind, "let "+t+" := "+c.toNilable(r))
+					} else {
+						e.add(ind, "let "+t+" := "+c.exprAs(r, c.results[i].Type()))
+					}
 					tmps = append(tmps, t)
 				}
 				for i, r := range c.results {
@@ -2331,6 +2482,10 @@ func (c *fctx) stmt(e *emitter, ind int, s ast.Stmt) {
 				var want types.Type
 				if i < len(c.results) {
 					want = c.results[i].Type()
+					if c.isNilable(c.results[i]) {
+						vals = append(vals, c.toNilable(r))
+						continue
+					}
 				}
 				vals = append(vals, c.exprAs(r, want))
 			}
@@ -2371,9 +2526,17 @@ func (c *fctx) stmt(e *emitter, ind int, s ast.Stmt) {
 				c.block(e, ind+1, []ast.Stmt{el})
 			}
 		}
+	case *ast.LabeledStmt:
+		switch st.Stmt.(type) {
+		case *ast.ForStmt, *ast.RangeStmt:
+			c.pendingLabel = st.Label.Name
+			c.loop(e, ind, st.Stmt)
+		default:
+			c.fail(s, "label on something other than a loop")
+		}
 	case *ast.BranchStmt:
-		if st.Label != nil || c.lc == nil {
-			c.fail(s, "%s with a label or outside a loop", st.Tok)
+		if c.lc == nil || (st.Label != nil && st.Label.Name != c.lc.label) {
+			c.fail(s, "%s outside a loop, or with the label of another loop", st.Tok)
 		}
 		switch st.Tok {
 		case token.BREAK:
@@ -2474,6 +2637,10 @@ func (c *fctx) assign(e *emitter, ind int, st *ast.AssignStmt) {
 	}
 	if len(st.Lhs) == len(st.Rhs) {
 		if len(st.Lhs) == 1 {
+			if v := c.nilableIdent(st.Lhs[0]); v != nil && !define {
+				c.assignTo(e, ind, st.Lhs[0], c.toNilable(st.Rhs[0]), false)
+				return
+			}
 			c.assignTo(e, ind, st.Lhs[0], c.exprAs(st.Rhs[0], c.typeOf(st.Lhs[0])), define)
 			return
 		}
@@ -2802,12 +2969,12 @@ func (c *fctx) loop(e *emitter, ind int, s ast.Stmt) {
 	sig = append(sig, absSigMark+name+"⟧")
 	roArgs = append(roArgs, absArgMark+name+"⟧")
 	for _, v := range ro {
-		sig = append(sig, fmt.Sprintf("(%s : %s)", c.nameOf(v), c.leanType(s, v.Type())))
+		sig = append(sig, fmt.Sprintf("(%s : %s)", c.nameOf(v), c.varLeanType(s, v)))
 		roArgs = append(roArgs, c.nameOf(v))
 	}
 	for _, v := range muts {
 		mutNames = append(mutNames, c.nameOf(v))
-		mutTys = append(mutTys, c.leanType(s, v.Type()))
+		mutTys = append(mutTys, c.varLeanType(s, v))
 		mutPats = append(mutPats, c.nameOf(v))
 	}
 	sigma := tupleType(mutTys)
@@ -2829,7 +2996,8 @@ func (c *fctx) loop(e *emitter, ind int, s ast.Stmt) {
 
 	// translate the body in the loop's context
 	saved := c.lc
-	c.lc = &loopCtx{muts: muts, scanVar: scanVar}
+	c.lc = &loopCtx{muts: muts, scanVar: scanVar, label: c.pendingLabel}
+	c.pendingLabel = ""
 	if consPat == "fuel__ + 1" {
 		c.lc.contCall = recCall("fuel__", "")
 	} else {
@@ -3046,13 +3214,34 @@ func (t *ftr) translate(fi *FuncInfo, from *fctx, at ast.Node) string {
 	for i := 0; i < sig.Results().Len(); i++ {
 		r := sig.Results().At(i)
 		c.results = append(c.results, r)
-		resTys = append(resTys, c.leanType(fi.Decl, r.Type()))
+		resTys = append(resTys, c.varLeanType(fi.Decl, r))
 		if r.Name() != "" && r.Name() != "_" {
-			shadow = append(shadow, fmt.Sprintf("let mut %s : %s := %s", c.nameOf(r), c.leanType(fi.Decl, r.Type()), c.zero(fi.Decl, r.Type())))
+			z := c.zero(fi.Decl, r.Type())
+			if c.isNilable(r) {
+				z = "none"
+			}
+			shadow = append(shadow, fmt.Sprintf("let mut %s : %s := %s", c.nameOf(r), c.varLeanType(fi.Decl, r), z))
 		}
 	}
 	for _, io := range c.inouts {
 		resTys = append(resTys, c.leanType(fi.Decl, io.Type()))
+	}
+	if spec != nil {
+		for _, x := range spec.expose {
+			var xt string
+			ast.Inspect(fi.Decl.Body, func(n ast.Node) bool {
+				if id, ok := n.(*ast.Ident); ok && id.Name == x {
+					if v, ok := c.info().Defs[id].(*types.Var); ok && xt == "" {
+						xt = c.leanType(id, v.Type())
+					}
+				}
+				return true
+			})
+			if xt == "" {
+				c.fail(fi.Decl, "exposed variable %s is not declared in the function", x)
+			}
+			resTys = append(resTys, "(Option "+xt+")")
+		}
 	}
 	c.retTy = tupleType(resTys)
 	e := &emitter{}
@@ -3084,6 +3273,9 @@ func (t *ftr) translate(fi *FuncInfo, from *fctx, at ast.Node) string {
 	for _, a := range c.abstractUsed {
 		absParams = append(absParams, a.sig)
 		absArgs = append(absArgs, a.name)
+	}
+	if spec != nil {
+		absParams = append(absParams, spec.params...)
 	}
 	params = append(absParams, params...)
 	// each loop takes the abstract parameters it mentions, plus those of the loops it calls
